@@ -318,7 +318,12 @@ func c15Encode(d string, frames []c15Frame, o c15Opts) (*c15Wire, error) {
 		case "OTHER":
 			switch f.K {
 			case "settings":
-				err = fr.WriteSettings(http2.Setting{ID: http2.SettingMaxFrameSize, Val: 16384 + uint32(o.rnd.IntN(1000))})
+				st := []http2.Setting{{ID: http2.SettingMaxFrameSize, Val: 16384 + uint32(o.rnd.IntN(1000))}}
+				if o.tableSize > 4096 {
+					// the peer may then use a larger HPACK table - and says so in its next header block
+					st = append(st, http2.Setting{ID: http2.SettingHeaderTableSize, Val: uint32(o.tableSize)})
+				}
+				err = fr.WriteSettings(st...)
 			case "settingsack":
 				err = fr.WriteSettingsAck()
 			case "ping":
@@ -655,6 +660,12 @@ func c15Play(scn *c15Scn, vseed uint64) (run *c15Run, wires map[string]*c15Wire,
 		opts.tableSize = 128
 	case 2:
 		opts.tableSize = 4096
+	}
+	if vseed%4 == 3 {
+		// a table larger than the protocol default: the header blocks then begin with a dynamic table size
+		// update above 4096, which is well-formed once the receiver announced SETTINGS_HEADER_TABLE_SIZE (the
+		// SETTINGS frames of these variants do; the tracer does not follow SETTINGS, so it must accept any size)
+		opts.tableSize = 65536
 	}
 	wires = map[string]*c15Wire{}
 	for _, d := range []string{"req", "resp"} {
